@@ -1,7 +1,6 @@
 package state
 
 import (
-	"bytes"
 	"fmt"
 	"sort"
 	"strings"
@@ -146,50 +145,6 @@ func (w *world) dispose() {
 	// handlers started by completion sections of a dead world cannot exist: nothing calls Ensure any more
 }
 
-// restart models "snapd stops and restarts from checkpoint k": all goroutines and the runner are dropped,
-// the state is re-read from the payload, a new runner with the same handlers is attached.
-func (w *world) restart(payload []byte) error {
-	// drop the old incarnation: release parked handlers as dead (their completion sections touch only the old state)
-	old := *w
-	old.parked = w.parked
-	w.dead = true
-	for i, p := range w.parked {
-		delete(w.parked, i)
-		close(p.release)
-		p.tb.Wait()
-	}
-	w.dead = false
-	w.activate()
-	st, err := ReadState(w.be, bytes.NewReader(payload))
-	if err != nil {
-		return err
-	}
-	w.st = st
-	w.st.Lock()
-	w.chg = w.st.Change(w.chg.ID())
-	if w.chg == nil {
-		w.st.Unlock()
-		return fmt.Errorf("change lost by restart")
-	}
-	w.idx = map[string]int{}
-	newTasks := make([]*Task, len(w.tasks))
-	for i, t := range w.tasks {
-		nt := w.st.Task(t.ID())
-		if nt == nil {
-			w.st.Unlock()
-			return fmt.Errorf("task t%d lost by restart", i)
-		}
-		newTasks[i] = nt
-		w.idx[nt.ID()] = i
-	}
-	w.tasks = newTasks
-	w.st.Unlock()
-	w.parked = map[int]*parkedH{}
-	w.starts = nil
-	w.attach()
-	return nil
-}
-
 // ---- state key ----
 
 func (w *world) key() string {
@@ -229,6 +184,9 @@ func (w *world) key() string {
 	if w.chg.IsClean() {
 		sb.WriteString("C")
 	}
+	if w.crashes > 0 {
+		fmt.Fprintf(&sb, "K%d", w.crashes)
+	}
 	return sb.String()
 }
 
@@ -262,7 +220,7 @@ type alphabet struct {
 	resolve bool
 	abort   int // max user aborts per path
 	advance bool
-	crash   bool
+	crash   int // max crashes (restart from the last checkpoint) per path
 }
 
 func permutations(xs []int) [][]int {
@@ -349,6 +307,9 @@ func (w *world) enabled(al alphabet, abortsUsed int) []erEvent {
 	if al.abort > abortsUsed && !ready {
 		evs = append(evs, erEvent{Kind: "abort"})
 	}
+	if al.crash > w.crashes {
+		evs = append(evs, erEvent{Kind: "crash"})
+	}
 	return evs
 }
 
@@ -364,6 +325,8 @@ func (w *world) apply(ev erEvent) {
 		w.userAbort()
 	case "advance":
 		w.advance()
+	case "crash":
+		w.crash()
 	default:
 		panic("harness: unknown event " + ev.Kind)
 	}
@@ -392,6 +355,7 @@ type explorer struct {
 	onState    func(w *world, path []erEvent)                     // every new state
 	onTerminal func(w *world, path []erEvent)                     // every terminal state
 	onProblem  func(path []erEvent, msg string)                   // a violation
+	onDone     func()                                             // after the whole configuration was explored
 	onStep     func(w *world, path []erEvent, ev erEvent, pre string) // after each transition (new or not)
 }
 
@@ -424,6 +388,9 @@ func (x *explorer) run() {
 		x.onState(w, nil)
 	}
 	x.dfs(nil, w)
+	if x.onDone != nil {
+		x.onDone()
+	}
 }
 
 // dfs takes ownership of w (live at path) and disposes it.
@@ -459,7 +426,7 @@ func (x *explorer) dfs(path []erEvent, w *world) {
 			x.onStep(w2, npath, ev, preKey)
 		}
 		key := w2.key()
-		if key != preKey {
+		if key != preKey && ev.Kind != "crash" { // a crash is not progress of the change: terminal states are judged without it
 			progress = true
 		}
 		if x.seen[key] {
